@@ -89,7 +89,7 @@ pub const CONFIGS: &[Config] = &[
     cfg("krk-3tasks-d4-all", KRKB, 4, false, 1, 9, true, true),
     cfg("krk-3tasks-d5-warm", KRKB, 5, true, 1, 9, false, true),
     cfg("kppkp-5tasks-d4", KPPKP, 4, false, 1, 9, false, true),
-    cfg("kppkp-5tasks-d5", KPPKP, 5, false, 1, 3, false, true),
+    cfg("kppkp-5tasks-d5-orders", KPPKP, 5, false, 0, 3, false, true),
     cfg("ep-9tasks-d4", EPB, 4, false, 1, 2, false, true),
     cfg("krkw-d4", KRKW, 4, false, 1, 1, false, true),
     cfg("krkw-d5", KRKW, 5, false, 0, 1, false, true),
@@ -394,9 +394,11 @@ fn free_running(c: &Config, expected: &BTreeSet<String>, sink: &Sink, a: &Args) 
 fn free_running_inner(c: &Config, expected: &BTreeSet<String>, sink: &Sink) -> u64 {
     let pos = Pos::from_fen(c.fen).unwrap();
     let mut n = 0;
-    for size in [1usize, 2, 3, 8, 16, 64] {
+    // (pool size, microseconds by which read critical sections are stretched)
+    for (size, stretch) in [(1usize, 0u32), (2, 0), (3, 0), (8, 0), (16, 0), (64, 0), (8, 5), (24, 5)] {
         let pool = rayon::ThreadPoolBuilder::new().num_threads(size).build().unwrap();
-        for _rep in 0..2 {
+        crate::sched::STRETCH_READERS_US.store(stretch, std::sync::atomic::Ordering::Relaxed);
+        for _rep in 0..(if stretch > 0 { 1 } else { 2 }) {
             let mut ctx = SearchContext::new(c.depth);
             let mut b = build_board(&pos);
             if c.warm {
@@ -410,6 +412,7 @@ fn free_running_inner(c: &Config, expected: &BTreeSet<String>, sink: &Sink) -> u
             }
         }
     }
+    crate::sched::STRETCH_READERS_US.store(0, std::sync::atomic::Ordering::Relaxed);
     n
 }
 
